@@ -114,4 +114,175 @@ theorem on_node_resid (z a b : V2) (p : Peak) (i j : ℤ)
   simp only []
   constructor <;> ring
 
+/-- **the stages of an exact recovery** (shared by the fast match and by `_tumble` of the full match):
+under the hypotheses of `C05.fastmatch_exact_recovery` the fit of round one is the true lattice, round
+two against the true lattice selects exactly the strong node peaks with their true indices, its fit is
+the true lattice again, and round two selects at least as many peaks as round one. -/
+theorem exact_stages (peaks : List Peak) (z a b z0 a0 b0 : V2) (tol mw : ℚ)
+    (node : Peak → Option (ℤ × ℤ))
+    (hd : det2 a b ≠ 0) (htol : 0 < tol) (hmw : 0 ≤ mw)
+    (hnode : ∀ p ∈ peaks, ∀ i j, node p = some (i, j) → p.pos = calcCoord z a b ((i : ℚ), (j : ℚ)))
+    (hout : ∀ p ∈ peaks, node p = none → mw ≤ p.elev → isMatched a b tol (ix z a b p) = false)
+    (h1 : ∀ p ∈ peaks, mw ≤ p.elev → isMatched a0 b0 tol (ix z0 a0 b0 p) = true →
+      node p = some (rix z0 a0 b0 p))
+    (hrank : (normalOf ((peaks.filter (selBy (fun p => Gen.fm_weight_ok p.elev mw) z0 a0 b0 tol)).map
+      fun p => ⟨((rix z0 a0 b0 p).1 : ℚ), ((rix z0 a0 b0 p).2 : ℚ), p.elev, 0⟩)).det ≠ 0) :
+    weightedOptimize peaks (peaks.map (selBy (fun p => Gen.fm_weight_ok p.elev mw) z0 a0 b0 tol))
+        ((peaks.filter (selBy (fun p => Gen.fm_weight_ok p.elev mw) z0 a0 b0 tol)).map (rix z0 a0 b0)) = some (z, a, b) ∧
+    peaks.map (selBy (fun p => Gen.fm_weight_ok p.elev mw) z a b tol)
+        = peaks.map (fun p => Gen.fm_weight_ok p.elev mw && (node p).isSome) ∧
+    peaks.filter (selBy (fun p => Gen.fm_weight_ok p.elev mw) z a b tol)
+        = peaks.filter (fun p => Gen.fm_weight_ok p.elev mw && (node p).isSome) ∧
+    (peaks.filter (fun p => Gen.fm_weight_ok p.elev mw && (node p).isSome)).map (rix z a b)
+        = (peaks.filter (fun p => Gen.fm_weight_ok p.elev mw && (node p).isSome)).map (fun p => (node p).getD (0, 0)) ∧
+    weightedOptimize peaks (peaks.map (fun p => Gen.fm_weight_ok p.elev mw && (node p).isSome))
+        ((peaks.filter (fun p => Gen.fm_weight_ok p.elev mw && (node p).isSome)).map (fun p => (node p).getD (0, 0)))
+        = some (z, a, b) ∧
+    (peaks.filter (selBy (fun p => Gen.fm_weight_ok p.elev mw) z0 a0 b0 tol)).length
+        ≤ (peaks.filter (fun p => Gen.fm_weight_ok p.elev mw && (node p).isSome)).length := by
+  set W : Peak → Bool := fun p => Gen.fm_weight_ok p.elev mw with hWdef
+  have hW : ∀ p, W p = true ↔ mw ≤ p.elev := by
+    intro p
+    show Gen.fm_weight_ok p.elev mw = true ↔ mw ≤ p.elev
+    unfold Gen.fm_weight_ok
+    simp only [decide_eq_true_eq, ge_iff_le]
+  set S1 := selBy W z0 a0 b0 tol with hS1
+  set T : Peak → Bool := fun p => W p && (node p).isSome with hT
+  -- members of the round-one selection are node peaks with their true indices
+  have hS1mem : ∀ p ∈ peaks.filter S1, p ∈ peaks ∧ mw ≤ p.elev ∧ node p = some (rix z0 a0 b0 p) ∧
+      p.pos = calcCoord z a b (((rix z0 a0 b0 p).1 : ℚ), ((rix z0 a0 b0 p).2 : ℚ)) := by
+    intro p hp
+    obtain ⟨hpp, hs⟩ := List.mem_filter.mp hp
+    rw [hS1] at hs
+    unfold selBy at hs
+    rw [Bool.and_eq_true] at hs
+    have hw := (hW p).mp hs.1
+    have hn := h1 p hpp hw hs.2
+    exact ⟨hpp, hw, hn, hnode p hpp _ _ hn⟩
+  have hw1 : ∀ o ∈ ((peaks.filter S1).map fun p => (⟨((rix z0 a0 b0 p).1 : ℚ), ((rix z0 a0 b0 p).2 : ℚ), p.elev, (0 : ℚ)⟩ : Obs)),
+      0 ≤ o.w := by
+    intro o ho
+    obtain ⟨p, hp, rfl⟩ := List.mem_map.mp ho
+    exact le_trans hmw (hS1mem p hp).2.1
+  have hpos1 : 0 < (normalOf ((peaks.filter S1).map fun p =>
+      (⟨((rix z0 a0 b0 p).1 : ℚ), ((rix z0 a0 b0 p).2 : ℚ), p.elev, (0 : ℚ)⟩ : Obs))).det :=
+    lt_of_le_of_ne (det_nonneg _ hw1) (Ne.symm hrank)
+  -- fit of round one = the true lattice
+  have hfit1 : weightedOptimize peaks (peaks.map S1) ((peaks.filter S1).map (rix z0 a0 b0)) = some (z, a, b) := by
+    unfold weightedOptimize
+    rw [obsFor_eq, obsFor_eq]
+    have hy : solveNormal (normalOf ((peaks.filter S1).map fun p =>
+        (⟨((rix z0 a0 b0 p).1 : ℚ), ((rix z0 a0 b0 p).2 : ℚ), p.elev, p.pos.1⟩ : Obs))) = some (z.1, a.1, b.1) := by
+      apply solve_exact
+      · intro o ho
+        obtain ⟨p, hp, rfl⟩ := List.mem_map.mp ho
+        exact (on_node_resid z a b p _ _ (hS1mem p hp).2.2.2).1
+      · rw [det_indep_t (peaks.filter S1) (fun p => ((rix z0 a0 b0 p).1 : ℚ)) (fun p => ((rix z0 a0 b0 p).2 : ℚ))
+          (fun p => p.elev) (fun p => p.pos.1) (fun _ => 0)]
+        exact ne_of_gt hpos1
+    have hx : solveNormal (normalOf ((peaks.filter S1).map fun p =>
+        (⟨((rix z0 a0 b0 p).1 : ℚ), ((rix z0 a0 b0 p).2 : ℚ), p.elev, p.pos.2⟩ : Obs))) = some (z.2, a.2, b.2) := by
+      apply solve_exact
+      · intro o ho
+        obtain ⟨p, hp, rfl⟩ := List.mem_map.mp ho
+        exact (on_node_resid z a b p _ _ (hS1mem p hp).2.2.2).2
+      · rw [det_indep_t (peaks.filter S1) (fun p => ((rix z0 a0 b0 p).1 : ℚ)) (fun p => ((rix z0 a0 b0 p).2 : ℚ))
+          (fun p => p.elev) (fun p => p.pos.2) (fun _ => 0)]
+        exact ne_of_gt hpos1
+    rw [hy, hx]
+  -- round two, run against the true lattice, selects exactly the strong node peaks
+  have hS2 : ∀ p ∈ peaks, selBy W z a b tol p = T p := by
+    intro p hp
+    show selBy W z a b tol p = (W p && (node p).isSome)
+    unfold selBy
+    cases hn : node p with
+    | none =>
+      simp only [Option.isSome_none, Bool.and_false]
+      cases hwp : W p
+      · rfl
+      · simp only [Bool.true_and]
+        exact hout p hp hn ((hW p).mp hwp)
+    | some ij =>
+      obtain ⟨i, j⟩ := ij
+      simp only [Option.isSome_some, Bool.and_true]
+      rw [(on_node z a b tol htol hd p i j (hnode p hp i j hn)).2.1, Bool.and_true]
+  have hR2 : ∀ p ∈ peaks.filter T, rix z a b p = (node p).getD (0, 0) := by
+    intro p hp
+    obtain ⟨hpp, ht⟩ := List.mem_filter.mp hp
+    rw [hT] at ht
+    simp only [Bool.and_eq_true] at ht
+    obtain ⟨ij, hn⟩ := Option.isSome_iff_exists.mp ht.2
+    obtain ⟨i, j⟩ := ij
+    rw [hn, Option.getD_some]
+    exact (on_node z a b tol htol hd p i j (hnode p hpp i j hn)).2.2
+  have hmap2 : peaks.map (selBy W z a b tol) = peaks.map T := List.map_congr_left hS2
+  have hfil2 : peaks.filter (selBy W z a b tol) = peaks.filter T := List.filter_congr hS2
+  have hidx2 : (peaks.filter T).map (rix z a b) = (peaks.filter T).map fun p => (node p).getD (0, 0) :=
+    List.map_congr_left hR2
+  have hTmem : ∀ p ∈ peaks.filter T, mw ≤ p.elev ∧
+      p.pos = calcCoord z a b ((((node p).getD (0, 0)).1 : ℚ), (((node p).getD (0, 0)).2 : ℚ)) := by
+    intro p hp
+    obtain ⟨hpp, ht⟩ := List.mem_filter.mp hp
+    rw [hT] at ht
+    simp only [Bool.and_eq_true] at ht
+    obtain ⟨ij, hn⟩ := Option.isSome_iff_exists.mp ht.2
+    obtain ⟨i, j⟩ := ij
+    rw [hn, Option.getD_some]
+    exact ⟨(hW p).mp ht.1, hnode p hpp i j hn⟩
+  -- rank of the final selection
+  have hsub : ((peaks.filter S1).map fun p =>
+        (⟨((rix z0 a0 b0 p).1 : ℚ), ((rix z0 a0 b0 p).2 : ℚ), p.elev, (0 : ℚ)⟩ : Obs)).Sublist
+      ((peaks.filter T).map fun p =>
+        (⟨(((node p).getD (0, 0)).1 : ℚ), (((node p).getD (0, 0)).2 : ℚ), p.elev, (0 : ℚ)⟩ : Obs)) := by
+    have e1 : ((peaks.filter S1).map fun p =>
+        (⟨((rix z0 a0 b0 p).1 : ℚ), ((rix z0 a0 b0 p).2 : ℚ), p.elev, (0 : ℚ)⟩ : Obs))
+        = (peaks.filter S1).map fun p =>
+        (⟨(((node p).getD (0, 0)).1 : ℚ), (((node p).getD (0, 0)).2 : ℚ), p.elev, (0 : ℚ)⟩ : Obs) := by
+      apply List.map_congr_left
+      intro p hp
+      rw [(hS1mem p hp).2.2.1, Option.getD_some]
+    rw [e1]
+    apply List.Sublist.map
+    apply filter_sublist_of_imp
+    intro p hp hs
+    have hp' : p ∈ peaks.filter S1 := List.mem_filter.mpr ⟨hp, hs⟩
+    obtain ⟨_, hw, hn, _⟩ := hS1mem p hp'
+    rw [hT]
+    simp only [Bool.and_eq_true]
+    exact ⟨(hW p).mpr hw, by rw [hn]; rfl⟩
+  have hw2 : ∀ o ∈ ((peaks.filter T).map fun p =>
+        (⟨(((node p).getD (0, 0)).1 : ℚ), (((node p).getD (0, 0)).2 : ℚ), p.elev, (0 : ℚ)⟩ : Obs)), 0 ≤ o.w := by
+    intro o ho
+    obtain ⟨p, hp, rfl⟩ := List.mem_map.mp ho
+    exact le_trans hmw (hTmem p hp).1
+  have hpos2 := lt_of_lt_of_le hpos1 (det_mono_sublist hsub hw2)
+  have hfit2 : weightedOptimize peaks (peaks.map T) ((peaks.filter T).map fun p => (node p).getD (0, 0))
+      = some (z, a, b) := by
+    unfold weightedOptimize
+    rw [obsFor_eq, obsFor_eq]
+    have hy : solveNormal (normalOf ((peaks.filter T).map fun p =>
+        (⟨(((node p).getD (0, 0)).1 : ℚ), (((node p).getD (0, 0)).2 : ℚ), p.elev, p.pos.1⟩ : Obs)))
+        = some (z.1, a.1, b.1) := by
+      apply solve_exact
+      · intro o ho
+        obtain ⟨p, hp, rfl⟩ := List.mem_map.mp ho
+        exact (on_node_resid z a b p _ _ (hTmem p hp).2).1
+      · rw [det_indep_t (peaks.filter T) (fun p => (((node p).getD (0, 0)).1 : ℚ))
+          (fun p => (((node p).getD (0, 0)).2 : ℚ)) (fun p => p.elev) (fun p => p.pos.1) (fun _ => 0)]
+        exact ne_of_gt hpos2
+    have hx : solveNormal (normalOf ((peaks.filter T).map fun p =>
+        (⟨(((node p).getD (0, 0)).1 : ℚ), (((node p).getD (0, 0)).2 : ℚ), p.elev, p.pos.2⟩ : Obs)))
+        = some (z.2, a.2, b.2) := by
+      apply solve_exact
+      · intro o ho
+        obtain ⟨p, hp, rfl⟩ := List.mem_map.mp ho
+        exact (on_node_resid z a b p _ _ (hTmem p hp).2).2
+      · rw [det_indep_t (peaks.filter T) (fun p => (((node p).getD (0, 0)).1 : ℚ))
+          (fun p => (((node p).getD (0, 0)).2 : ℚ)) (fun p => p.elev) (fun p => p.pos.2) (fun _ => 0)]
+        exact ne_of_gt hpos2
+    rw [hy, hx]
+  refine ⟨hfit1, hmap2, hfil2, hidx2, hfit2, ?_⟩
+  have := hsub.length_le
+  simpa using this
+
 end Model
